@@ -63,3 +63,34 @@ pub struct CompParams {
     pub shards: u64,
     pub miri: bool,
 }
+
+/// Runs one case; a panic raised inside the library is a violation of `prop` (the engines only
+/// feed inputs the component's documentation allows), a panic anywhere else is a harness error.
+pub fn guarded(o: &mut CompOutcome, prop: &'static str, what: &dyn Fn() -> String, f: &mut dyn FnMut(&mut CompOutcome)) {
+    let r = std::panic::catch_unwind(std::panic::AssertUnwindSafe(|| f(o)));
+    if let Err(e) = r {
+        let (msg, loc) = crate::sim::cluster::LAST_PANIC.with(|p| p.borrow_mut().take()).unwrap_or_default();
+        if loc.contains("/repo/") {
+            let mut sig = String::new();
+            let mut in_num = false;
+            for c in msg.chars() {
+                if c.is_ascii_digit() {
+                    if !in_num {
+                        sig.push('#');
+                    }
+                    in_num = true;
+                } else {
+                    in_num = false;
+                    sig.push(c);
+                }
+                if sig.len() > 70 {
+                    break;
+                }
+            }
+            o.violation(prop, "no-panic-on-legal-input", &format!("panic/{}", sig), format!("{}: library panicked at {}: {}", what(), loc, msg));
+        } else {
+            crate::sim::cluster::LAST_PANIC.with(|p| *p.borrow_mut() = Some((msg, loc)));
+            std::panic::resume_unwind(e);
+        }
+    }
+}
